@@ -114,6 +114,26 @@ def deep(pid, steps, seed):
 
 
 # ---- nesting ------------------------------------------------------------------------------------------------------
+def deep_async(pid, macro, steps, nb):
+    """two-digit step numbers in the async expansions: `steps` steps over always-ready futures, one poll must complete with the closed form"""
+    is_try = macro.startswith("try")
+    L = ["let x = u(); let y = u();"]
+    ini = (lambda v: "ready(mk(true, %s))" % v) if is_try else (lambda v: "ready(%s)" % v)
+    cb = (lambda c: "move |r: Result<u8, u8>| r.map(|v| v ^ %du8)" % c) if is_try else (lambda c: "move |v: u8| v ^ %du8" % c)
+    b0 = [ini("x")] + ["~|> %s" % cb(const(0, s)) for s in range(1, steps)]
+    b1 = [ini("y")] + ["~|> { let keep = %du8; %s }" % (const(1, s), cb(const(1, s)).replace("%du8" % const(1, s), "keep")) for s in range(1, steps)]
+    brs = [" ".join(b0), " ".join(b1)][:nb]
+    text = "%s! {\n        %s\n    }" % (macro, ",\n        ".join(brs))
+    e0 = " ^ ".join(["x"] + ["%du8" % const(0, s) for s in range(1, steps)])
+    e1 = " ^ ".join(["y"] + ["%du8" % const(1, s) for s in range(1, steps)])
+    tup = "(%s, %s)" % (e0, e1) if nb == 2 else "(%s)" % e0
+    L.append("let mut fut = %s;" % text)
+    L.append("let r = poll_once(&mut fut);")
+    L.append("vassert!(r == Poll::Ready(%s), \"C17[%s]: %d steps in an async macro (two-digit step indices): one poll over ready futures completes with the closed form\");" % ("Ok(%s)" % tup if is_try else tup, pid, steps))
+    L.append("vcover!(true, \"end reached\");")
+    return Program(pid, text, "    " + "\n    ".join(L), desc=dict(macro=macro, steps=steps, branches=nb), group="deep-async", role=dict(kind=macro), solo=True, unwind=12, weight=6, heavy=nb > 1)
+
+
 def inner_value(name, a, b, depth_inner=None):
     """expression of type u8 computed by an inner macro `name` over two branches (values a, b); == a ^ b ^ 1"""
     is_async, is_try, is_spawn = KINDS[name]
@@ -222,6 +242,9 @@ def programs(tier, seed):
     for macro in ("join", "try_join"):
         i += 1
         ps.append(shadow("p%04d" % i, macro))
+    for macro, nb in (("join_async", 1), ("try_join_async", 2)) if tier == "quick" else (("join_async", 1), ("try_join_async", 2), ("join_async", 2), ("try_join_async_spawn", 1)):
+        i += 1
+        ps.append(deep_async("p%04d" % i, macro, 12, nb))
     return ps
 
 
